@@ -739,6 +739,7 @@ KV = "nostr_relay/storage/kv.py"
 WEB = "nostr_relay/web.py"
 
 MUTANTS = [
+    M("c13-config-from-environ", "nostr_relay/config.py", "        for k, v in conf.items():\n            setattr(self, k, v)\n", "        for k, v in conf.items():\n            setattr(self, k, v)\n        for k, v in os.environ.items():\n            setattr(self, k.lower(), v)\n", "C13.config"),
     M("c13-notify-yields-first", "nostr_relay/storage/base.py", "            await self.queue.put((self.sub_id, event))", "            await asyncio.sleep(0)\n            await self.queue.put((self.sub_id, event))", "C13.atomic"),
     M("c13-bounded-queue", "nostr_relay/web.py", "subscription_queue = asyncio.Queue()", "subscription_queue = asyncio.Queue(1000)", "C13.queue"),
     M("c13-close-json-id", WEB, "                    sub_id = str(message[1])\n                    await storage.unsubscribe(client_id, sub_id)", "                    sub_id = json_dumps(message[1])\n                    await storage.unsubscribe(client_id, sub_id)", "C13.subid"),
